@@ -109,6 +109,23 @@ def replay(ob):
 PARAM_SETS = (None, {"x": 0.06, "y": 0.045, "z": 0.045}, {"x": 0.94, "y": 0.955, "z": 0.93}, {"x": 0.27, "y": 0.61, "z": 0.83})
 
 
+def replay_near_one():
+    """a free parameter a hair below 1 is reported inside [0,1) (general positions of groups without normalizers; only probes that
+    are analysed as their own group count)"""
+    for sg in (1, 214, 229, 211):
+        g = _chiral_probe(sg)[-1]
+        try:
+            at = probe(sg, [(g, 14, PIN[0][1]), (g, 8, PIN[1][1]), (g, 29, {"x": 0.999997, "y": 0.4, "z": 0.6})])
+            if len(at) > 300:
+                continue
+            r = check_wyckoff_params(at, {"probe": {"sg": sg, "occupied": [g], "parameters": "x = 0.999997"}})
+            if r.get("reproduced") and r.get("detected_sg") == sg and isinstance(r.get("observed"), list):
+                return r
+        except Exception:
+            continue
+    return {"reproduced": False}
+
+
 def offset_positions(limit=14):
     """(sg, letter) whose tabulated representative reads a free variable together with a constant offset (x+1/8, z+1/4, ...):
     the positions on which a missing final wrap of the solved parameters shows"""
